@@ -29,8 +29,16 @@ Mols3 == { <<Res("T4", C1, TRUE), Res("T2", C2, FALSE), Res("T4", C3, TRUE)>>,
            <<Res("T5", C1, FALSE), Res("T4", C2, TRUE), Res("T6", C3, TRUE)>>,
            <<Res("T3", C1, TRUE), Res("T4", C2, TRUE), Res("T1", C3, FALSE)>> }
 MCMols == Mols1 \cup Mols2 \cup Mols3
+Mols2q == { <<Res(t, C1, TRUE), Res(t, C2, TRUE)>> : t \in TIds } \cup
+          { <<Res(ts[1], C1, TRUE), Res(ts[2], C2, TRUE)>> : ts \in { <<"T4", "T5">>, <<"T5", "T4">>, <<"T2", "T4">>, <<"T6", "T3">>, <<"T1", "T6">>, <<"T3", "T2">> } }
+MCMolsQuick == Mols1 \cup Mols2q \cup Mols3
 MCMolsSmall == Mols1 \cup { <<Res("T5", C1, TRUE), Res("T4", C2, TRUE)>>, <<Res("T4", C1, TRUE), Res("T4", C2, TRUE)>> }
 MCFudges == { <<2, 5>>, <<1, 1>>, <<5, 4>> }
 MCFudgesSmall == { <<2, 5>> }
 MCAngles == { <<x, y, z>> : x \in 0..3, y \in 0..3, z \in 0..3 }
+\* orthogonal integer matrices, by brute force over all 3^9 matrices with entries -1, 0, 1 (TLC evaluates this constant once at start-up, about 6 s)
+OrthoBrute == { M \in { << <<a, b, c>>, <<d, e, f>>, <<g, h, i>> >> :
+                        a \in Trits, b \in Trits, c \in Trits, d \in Trits, e \in Trits, f \in Trits,
+                        g \in Trits, h \in Trits, i \in Trits } : AsTuple(MatMul(M, Transp(M))) = Id3 }
+BruteOnce == (placed = 0 /\ done = {}) => (OrthoBrute = OrthoLattice)
 =============================================================================
